@@ -5,7 +5,7 @@
    Statements only; proofs in proofs/SyntaxFacts.v and proofs/GrammarFacts.v. *)
 From Coq Require Import List String Bool QArith Reals.
 Import ListNotations.
-Require Import Py Sem Term Ast Syntax Grammar ParseAll SyntaxFacts GrammarFacts.
+Require Import Py Sem Term Ast Syntax Grammar ParseAll SyntaxFacts GrammarFacts ParseAllFacts.
 
 (* the parsed inequalities hold at a point exactly when the written relation holds there *)
 Theorem C09_fold_sound : forall e ts, fold_expr e = inl ts -> forall rho, sat_list rho ts <-> eden rho e.
@@ -14,10 +14,7 @@ Print Assumptions C09_fold_sound.
 
 Theorem C09_parse_sound : forall s ts, parse_terms s = inl ts ->
   exists e, Grammar.parse_expr s = Ok e /\ forall rho, sat_list rho ts <-> eden rho e.
-Proof.
-  intros s ts H. unfold parse_terms in H. destruct (Grammar.parse_expr s) as [e| | |] eqn:E; try discriminate.
-  exists e. split; [reflexivity|]. exact (fold_sound e ts H).
-Qed.
+Proof. exact parse_terms_sound. Qed.
 Print Assumptions C09_parse_sound.
 
 (* non-convex uses of absolute values are rejected with the convexity error, never translated *)
@@ -28,6 +25,12 @@ Print Assumptions C09_convex.
 Theorem C09_fold_errors : forall e x, two_sided e -> fold_expr e = inr x -> x = ConvexErr \/ x = Escape "ZeroDivisionError".
 Proof. exact fold_errors. Qed.
 Print Assumptions C09_fold_errors.
+
+(* every string is either read, or rejected with the syntax error (malformed, including a constant expression
+   that divides by zero) or the convexity error -- nothing else *)
+Theorem C09_string_errors : forall s x, parse_terms s = inr x -> x = SyntaxErr \/ x = ConvexErr.
+Proof. exact parse_terms_errors. Qed.
+Print Assumptions C09_string_errors.
 
 (* the parser is a total function of the string (so parsing twice gives the same result) and always decides *)
 Theorem C09_parser_total : forall s, Grammar.parse_expr s <> OutOfFuel.
